@@ -788,6 +788,13 @@ def _is_self_attr(n, name=None):
             and (name is None or n.attr == name))
 
 
+def _callfree_assign(node):
+    """a local bound to an expression without any call (string formatting of locals, constants, attributes):
+    irrelevant to the listener protocol"""
+    return isinstance(node, ast.Assign) and all(isinstance(t, ast.Name) for t in node.targets) and \
+        not any(isinstance(x, (ast.Call, ast.Await, ast.Yield, ast.YieldFrom)) for x in ast.walk(node.value))
+
+
 def translate(src):
     """-> (lifecycle table, handler table, publish table) in the vocabulary of M_bus.lifecycle_skel /
     handler_skel / publish_skel; raises on anything it does not understand (fail closed)."""
@@ -951,7 +958,7 @@ def translate(src):
                 ok = (isinstance(t, ast.Compare) and isinstance(t.left, ast.Name) and t.left.id == 'channel'
                       and isinstance(t.ops[0], ast.Eq) and isinstance(t.comparators[0], ast.Constant)
                       and t.comparators[0].value in CHN and all(isinstance(b, ast.Pass) for b in x.body)
-                      and len(x.orelse) == 1 and step(x.orelse[0]) == [[1]])
+                      and [step(b) for b in x.orelse if not _callfree_assign(b)] == [[[1]]])
                 if not ok:
                     raise Untranslatable('publish: log special case')
                 steps.append([10, CHN.index(t.comparators[0].value)])
